@@ -231,3 +231,4 @@ NO_FRAME_GROUPS = ("wf",) + tuple(f"newline:{_i}" for _i in range(8))
 REPLAY = dict(c13.REPLAY)
 REPLAY.update(c03.REPLAY)
 REPLAY.update(c04.REPLAY)
+REPLAY.update({k: v for k, v in c10.REPLAY.items() if k not in REPLAY})
